@@ -40,6 +40,11 @@ def gen_pattern(rng, maxlen=12):
             out.append(rng.choice(LETTERS))
         else:
             out.append(rng.choice(OTHER))
+    if rng.random() < 0.08:
+        # sequences that LOOK like an escape or a variable in some dialect but are plain characters + wildcards here ("${*}" is
+        # "$", "{", any run, "}"); digit-only text that a number-first union would rewrite ("012" -> 12 -> "12")
+        out.insert(rng.randrange(len(out) + 1), rng.choice(["${*}", "${?}", "${$}", "$*", "${**}", "${aws:username}", "\\*", "[*]",
+                                                             "012345678901", "007", "1.0", "+1", "1_000", "0x10", "1e3"]))
     return "".join(out)
 
 
